@@ -366,7 +366,8 @@ def check_doflocs(ctx, mc, rec, elem, basis):
                 X = np.where(nanmask, 0.0, X)
                 h = float(np.abs(np.asarray(mesh.p)).max() + 1)
                 multi = max(counts[1], counts[2]) > 1
-                if multi and mc.order == 1 and kind in ("tri", "tet") and not (np.diff(np.asarray(mesh.t), axis=0) > 0).all():
+                if multi and mc.order == 1 and kind in ("tri", "tet") and not (np.diff(np.asarray(mesh.t), axis=0) > 0).all() \
+                        and (mc.desc.get("unsorted_by_caller") or mc.desc.get("derived") in ("oriented", "used-oriented", "unsorted")):
                     # the caller's explicit choice (sort_t=False / oriented()): the library documents that elements whose
                     # facet DOFs are ordered along the facet assume ascending cells (same reading as C03)
                     ctx.drop("unsorted-simplices:location-of-several-dofs-per-facet-is-outside-the-claim")
